@@ -15,9 +15,7 @@ def main():
     for (nk, nv, lf, it) in insts:
         r = tlc.run('BTreeImpl', shapes.cfg(nk, nv, lf, it, invariants=INVS, props=PROPS), timeout=3000)
         ck.add_tlc(r.summary(), 'BTreeImpl keys=%d vals=%d sizes=(%d,%d)' % (nk, nv, lf, it))
-        if not r.ok:
-            ck.violation('TLC: %s violated on the specification (keys=%d vals=%d sizes=%d/%d): %s' % (
-                r.violation or r.error, nk, nv, lf, it, r.out[-1500:]), dict(kind='tlc', inst=[nk, nv, lf, it]))
+        common.tlc_verdict(ck, r, ck.notes['tlc_runs'][-1]['name'])
     # 2. spec -> code: replay explored transitions into the real containers
     dumps = []
     spec = [(4, 2, 2, 2, [False]), (5, 1, 2, 2, [True]), (4, 2, 99, 2, [False, True])] if quick else \
